@@ -295,6 +295,17 @@ pub async fn af_tag2(x: u8) -> na2::Tag {
     na2::Tag(x)
 }
 
+#[inline(never)]
+pub async fn af_opt(x: u32) -> Option<u32> {
+    BODY[7].fetch_add(1, SeqCst);
+    Some(x)
+}
+#[inline(never)]
+pub async fn af_pair(x: u32) -> (u32, u32) {
+    BODY[7].fetch_add(1, SeqCst);
+    (x, x)
+}
+
 /// C09, async half: every ordered pair of output types through async_func! x async_return!
 fn run_async_pairs() {
     panics::install_hook();
@@ -325,6 +336,9 @@ fn run_async_pairs() {
             // two distinct types with the same name in different modules
             pair!($t1, "na1::Tag", $fut, $ty1, na1::Tag(1), na1::Tag);
             pair!($t1, "na2::Tag", $fut, $ty1, na2::Tag(1), na2::Tag);
+            // types whose text CONTAINS the text of another member
+            pair!($t1, "Option<u32>", $fut, $ty1, Some(1u32), Option<u32>);
+            pair!($t1, "(u32, u32)", $fut, $ty1, (1u32, 2u32), (u32, u32));
         }};
     }
     row!("u32", a2(0), u32);
@@ -334,6 +348,8 @@ fn run_async_pairs() {
     row!("()", unit_fn(&flag), ());
     row!("na1::Tag", af_tag1(0), na1::Tag);
     row!("na2::Tag", af_tag2(0), na2::Tag);
+    row!("Option<u32>", af_opt(0), Option<u32>);
+    row!("(u32, u32)", af_pair(0), (u32, u32));
 }
 
 pub fn run(script: &str, out: &str) {
